@@ -1058,6 +1058,22 @@ def _n_other(g):
     return _h(g), _h(g)
 
 
+@cls('name-short-after-longer', weight=2)
+def _c_name_short_after_longer(g, c):
+    """A short SAN entry ("*", "*.", one letter) right after a longer one: whatever the longer one left in the
+    validator's name buffer is not part of the short name.  The expected name has no dot (a bare host name)."""
+    r = g.rng
+    w = r.choice(WORDS)
+    h = g.host()
+    first = r.choice(['*.' + h, '*.' + w, w[0] + '.' + h, '*.' + w + '.' + h])
+    second = r.choice(['*', '*', 'x', '*.'])
+    server = r.choice([w, w, w + 'x', h.split('.')[0]])
+    names = [(r.choice(['dns', 'dns', 'email']), first.encode()), ('dns', second.encode())]
+    if r.random() < 0.3:
+        names.append(('dns', g.host().encode()))
+    _set_names(c, [('utf8', 'Service %d' % g.n())], names, server.encode())
+
+
 _name_class('name-exact', _n_exact, 2)
 _name_class('name-case-insensitive', _n_case, 3)
 _name_class('name-wildcard-leftmost', _n_wild_ok, 3)
